@@ -7,6 +7,21 @@ COMMON_TB = [
     "Go harness canonicalisation and the Lean driver's compiled code (Lean compiler/runtime)",
 ]
 
+EVAL_RULE = ("eval suite: every case is a session (1..11 inputs on one persistent eval.State) generated from a typed grammar "
+             "(ints with boundary values, floats, bools, strings, arrays, maps, named functions/lambdas/closures, recursion, if/else, all for forms "
+             "with break/continue/return, = and :=, ++/--, negative indices, slices, every operator rendered with minimal parentheses, print/println), "
+             "run under 4 configurations (cache on/off x registers on/off) through the real lexer, parser and evaluator; the Lean evaluator model runs the "
+             "same parsed programs with cache on and off. non-trivial = at least one input parses; distinct = distinct case line.")
+EVAL_TB = COMMON_TB + ["modelled: eval/eval.go (all of evalInternal and helpers except pipe/log/quote/extension callbacks), eval/eval_api.go Eval, eval/memo.go, "
+                       "object/state.go (Get, makeRef, SetNoChecks, CreateOrSet, create, update, Delete, TriggerNoCache), object/object.go "
+                       "(Cmp, Equals, Inspect for non-float data, Hashable, First, Rest, Len, map primitives)",
+                       "model deviations by design: containers have value semantics (a program mutating a large array/map in place is declined), "
+                       "integer registers are not modelled (the model is the -no-register configuration), float formatting/math.Mod/extensions/"
+                       "grol-defined root helpers are declined (counted as unmodelled in the evidence)",
+                       "the parser's tree and each function literal's cache key are taken from the real parser/printer (inputs of the model)"]
+EVAL_ASSUME = ["Lean's native Float (IEEE double, same hardware operations as Go on amd64) in the driver",
+               "a case the model declines is not a disagreement; the cross-configuration statements are still evaluated on it"]
+
 PROPS = {
     "C11": {
         "proof_modules": ["GrolProofs.Props.C11"],
@@ -189,5 +204,40 @@ PROPS = {
             "the other MustBeOk call sites in extensions (str functions) and object (function parameters/body)"],
         "assumptions": ["candidate for the time part of C09, not a memory-guard issue: `[] * n` runs a Go-level loop of n iterations that appends nothing and never polls the "
                         "context (the memory suite therefore leaves out empty arrays with huge counts)"],
+    },
+    "C01": {
+        "proof_modules": ["GrolProofs.Props.C01"],
+        "theorems": ["Grol.E.C01.int_arith", "Grol.E.C01.int_arith_wraps", "Grol.E.C01.int_div", "Grol.E.C01.int_div_truncates",
+                     "Grol.E.C01.shifts", "Grol.E.C01.prefix_ops", "Grol.E.C01.array_index"],
+        "suites": [["eval", "C01"]],
+        "rule": EVAL_RULE + " C01 statement: the default configuration's output/value/error flag per input equal the reference (model without cache).",
+        "trusted_base": EVAL_TB,
+        "assumptions": EVAL_ASSUME,
+    },
+    "C04": {
+        "proof_modules": ["GrolProofs.Props.C04"],
+        "theorems": ["Grol.E.C04.off_get", "Grol.E.C04.off_set"],
+        "suites": [["eval", "C04"]],
+        "rule": EVAL_RULE + " C04 statement: per input, output/value/error/panic are identical with the cache on and off (both register settings).",
+        "trusted_base": EVAL_TB,
+        "assumptions": EVAL_ASSUME,
+    },
+    "C05": {
+        "proof_modules": ["GrolProofs.Props.C05"],
+        "theorems": ["Grol.Reg.C05.loop_balanced", "Grol.Reg.C05.nested_loops_balanced", "Grol.Reg.C05.sequence_balanced"],
+        "suites": [["eval", "C05"]],
+        "rule": EVAL_RULE + " C05 statement: per input, output/value/error/panic are identical with registers on and off (both cache settings).",
+        "trusted_base": EVAL_TB + ["register file model lean/Grol/Registers.lean (MakeRegister/ReleaseRegister/HasRegisters and the post-fix protocol of evalForInteger); "
+                                   "the rewriting of bodies (ModifyRegister) is not modelled"],
+        "assumptions": EVAL_ASSUME,
+    },
+    "C07": {
+        "proof_modules": ["GrolProofs.Props.C07"],
+        "theorems": ["Grol.E.C07.integer_ops_no_panic", "Grol.E.evalIntegerInfix_no_panic", "Grol.E.bind_no_panic", "Grol.E.outcome_bind"],
+        "suites": [["eval", "C07"]],
+        "rule": EVAL_RULE + " C07 stream: operands are ill-typed with probability 4% per node, shift counts and divisors unguarded. "
+                "C07 statement: no Go panic (other than the depth/memory guards) in any of the four configurations.",
+        "trusted_base": EVAL_TB,
+        "assumptions": EVAL_ASSUME,
     },
 }
